@@ -231,6 +231,7 @@ fn c10_jobs(thorough: bool) -> Vec<Job> {
                     hmax: H0 + blocks - 1,
                     start_ns: 0,
                     advance_ns: vec![],
+                    jumps: vec![],
                     adversarial: adv,
                 },
             },
@@ -258,6 +259,7 @@ fn c10_jobs(thorough: bool) -> Vec<Job> {
                     hmax: H0 + 3,
                     start_ns: 700_000_000,
                     advance_ns: vec![9_500_000_000, 500_000_000],
+                    jumps: vec![],
                     adversarial: false,
                 },
             },
@@ -287,6 +289,44 @@ fn c10_jobs(thorough: bool) -> Vec<Job> {
         out.push(mk(true, 1, 1, hp, [3, 1, 1], vec![1, 2, 3], vec![0, 1, 2, 3], 4, true, "closed", None));
         out.push(mk(true, 3, 2, tp, [4, 1, 0], vec![1, 2, 3], vec![0, 1, 3], 4, true, "closed", None));
         out.push(mk(false, 3, 5, hp, [6, 1, 0], vec![2, 3, 5], vec![0, 1, 3], 4, true, "closed", None));
+    }
+    // very long unbonding periods (more than ten years of seconds / blocks): the clock jumps by
+    // 315 360 000 and by 84 640 000 (blocks and seconds), so a Claim is tried after 315 360 000 and
+    // at exactly 400 000 000, the configured period
+    let long = |cw20: bool, period: Period| {
+        let p = match period {
+            Period::Height(h) => format!("Height({h})"),
+            Period::Time(t) => format!("Time({t}s)"),
+        };
+        Job::S10(
+            StakeModel {
+                cfg: Cfg {
+                    name: format!(
+                        "C10/{}/tokens_per_weight 1/min_bond 1/unbonding {p}/funds [2, 1, 0]/clock jumps of 315360000 and 84640000 blocks+seconds",
+                        if cw20 { "cw20" } else { "native" }
+                    ),
+                    cw20,
+                    tpw: 1,
+                    min_bond: 1,
+                    period,
+                    funds: [2, 1, 0],
+                    bond_amts: vec![1, 2],
+                    unbond_amts: vec![1, 2],
+                    hmax: H0 + 400_000_000,
+                    start_ns: 0,
+                    advance_ns: vec![],
+                    jumps: vec![315_360_000, 84_640_000],
+                    adversarial: false,
+                },
+            },
+            None,
+        )
+    };
+    out.push(long(false, Period::Height(400_000_000)));
+    out.push(long(false, Period::Time(400_000_000)));
+    if thorough {
+        out.push(long(true, Period::Height(400_000_000)));
+        out.push(long(true, Period::Time(400_000_000)));
     }
     out.push(subsec(false, 1, 1));
     if thorough {
@@ -487,8 +527,8 @@ fn describe(prop: &str) -> (&'static str, &'static str, &'static str) {
             "the clock is capped (blocks per configuration in its name) and weights are finite, so every configuration runs to a FIXPOINT: all histories over the alphabet within the block bound, any number of updates per block",
         ),
         "C10" => (
-            "Bond with funds {1,2,3 of the stake denom, another denom, a denom equal to the stake denom up to letter case, two denoms, a zero amount of the stake denom next to a foreign coin (both orders), none; in cw20 configurations a native coin whose denom is spelled like the token address}; cw20 Send{Bond} through the configured real cw20-base token and through a foreign one; Receive sent directly by a user (for himself / for another user); Unbond {0,1,2,3, stake+1}; Claim; a donation to the contract; AdvanceBlock (+1 block, +5 s; in the sub-second configuration blocks start at T0+0.7 s and advance by 9.5 s or 0.5 s). Configurations: native / cw20 stake token, tokens_per_weight {1,2,3}, min_bond {0,1,2,5}, unbonding Height(2) / Time(10 s), two stakers with finite funds and a donor. Edge configurations: bonds of 2^64*tpw-1, 2^64*tpw, 2^64*tpw+3, 2^128-1, 2^128-2, two stakers bonding 1e19 each (sum of weights above 2^64), and tokens_per_weight 2^64+1000 with min_bond 5000.",
-            "reference ledger {stake[u], claims[u]=[(amount, unbond block height / exact block time in nanoseconds + period)]} stepped on accepted calls. State: real holdings of the contract (kernel bank / real cw20 balance) >= sum stakes + sum unreleased claims, == when nobody donated; Staked and Claims queries == ledger; Member{u} == Some(floor(stake/tokens_per_weight)) compared in 128 bits iff stake >= max(min_bond,1) else None; TotalWeight == sum of listed weights; listing == Member queries. Transition: accepted bond with anything but exactly the configured token, foreign-token Send{Bond} or user-sent Receive accepted => violation; Unbond above the stake accepted => violation; an accepted Claim moves exactly the sum of the caller's claims whose release point is reached (computed by the reference) from the contract to the caller and removes them, nobody else's balance moves; every other accepted call moves exactly its own amount; a refused call and a block advance change nothing.",
+            "Bond with funds {1,2,3 of the stake denom, another denom, a denom equal to the stake denom up to letter case, two denoms, a zero amount of the stake denom next to a foreign coin (both orders), none; in cw20 configurations a native coin whose denom is spelled like the token address}; cw20 Send{Bond} through the configured real cw20-base token and through a foreign one; Receive sent directly by a user (for himself / for another user); Unbond {0,1,2,3, stake+1}; Claim; a donation to the contract; AdvanceBlock (+1 block, +5 s; in the sub-second configuration blocks start at T0+0.7 s and advance by 9.5 s or 0.5 s). Configurations: native / cw20 stake token, tokens_per_weight {1,2,3}, min_bond {0,1,2,5}, unbonding Height(2) / Time(10 s) (and Height/Time(400 000 000) with a jumping clock), two stakers with finite funds and a donor. Edge configurations: bonds of 2^64*tpw-1, 2^64*tpw, 2^64*tpw+3, 2^128-1, 2^128-2, two stakers bonding 1e19 each (sum of weights above 2^64), and tokens_per_weight 2^64+1000 with min_bond 5000.",
+            "reference ledger {stake[u], claims[u]=[(amount, unbond block height / exact block time in nanoseconds + period)]} stepped on accepted calls. State: real holdings of the contract (kernel bank / real cw20 balance) >= sum stakes + sum unreleased claims, == when nobody donated; Staked and Claims queries == ledger; Member{u} == Some(floor(stake/tokens_per_weight)) compared in 128 bits iff stake >= max(min_bond,1) else None; TotalWeight == sum of listed weights; listing == Member queries. Transition: accepted bond with anything but exactly the configured token, foreign-token Send{Bond} or user-sent Receive accepted => violation; Unbond above the stake accepted => violation; a Claim by a user with matured unpaid claims (> 0) is accepted; an accepted Claim moves exactly the sum of the caller's claims whose release point is reached (computed by the reference) from the contract to the caller and removes them, nobody else's balance moves; every other accepted call moves exactly its own amount; a refused call and a block advance change nothing.",
             "closed configurations (finite funds, capped clock, zero-unbond offered once per pending zero claim) run to FIXPOINT; edge configurations to the stated depth",
         ),
         "C14" => (
